@@ -135,6 +135,13 @@ func checkMarshal(t *verifrt.T, v interface{}, ref []byte) {
 		err3 := enc.Encode(v)
 		t.Assert("encoder-succeeds", err3 == nil)
 		t.Assert("encoder-equals-marshal-newline", verifref.BytesEq(w.Bytes(), append(append([]byte{}, out...), '\n')))
+		// an Encoder with HTML escaping switched off describes the same document as the option
+		var w2 bytes.Buffer
+		enc2 := NewEncoder(&w2)
+		enc2.SetEscapeHTML(false)
+		err3b := enc2.Encode(v)
+		noHTML, err3c := MarshalWithOption(v, DisableHTMLEscape())
+		t.Assert("encoder-nohtml-equals-option", verifrt.And(err3b == nil, err3c == nil, verifref.BytesEq(w2.Bytes(), append(append([]byte{}, noHTML...), '\n'))))
 		ne, err4 := MarshalNoEscape(v)
 		t.Assert("noescape-succeeds", err4 == nil)
 		t.Assert("noescape-equals-marshal", verifref.BytesEq(ne, out))
